@@ -339,17 +339,24 @@ def run_both(impl, model, scripts, chk=None):
     rc2, o2, e2 = vlib.run_lines(model, scripts)
     if rc2 != 0 or len(o2) != len(scripts):
         raise vlib.BuildError('model driver failed: rc=%d %s' % (rc2, e2[-500:]))
-    rc1, o1, e1 = vlib.run_lines(impl, scripts)
+    # the implementation may crash or hang on a script: the harness is line-buffered, so the lines
+    # before the crash are there; the crashing script gets a CRASH line and the run resumes after it
+    o1 = []
+    restarts = 0
+    while len(o1) < len(scripts):
+        rc1, out, e1 = vlib.run_lines(impl, scripts[len(o1):], timeout=600)
+        o1 += out[:len(scripts) - len(o1)]
+        if len(o1) >= len(scripts):
+            break
+        if rc1 != 3:          # rc 3 = stopped after 5 hangs, every line produced is complete
+            o1.append('CRASH rc=%d %s' % (rc1, e1[-200:].replace('\n', ' ')))
+        restarts += 1
+        if restarts > 6:
+            o1 += ['NOT-RUN'] * (len(scripts) - len(o1))
     bad = []
-    if rc1 != 0 or len(o1) != len(scripts):
-        # the implementation crashed / hung on some script: find it (bisect by running one by one)
-        for s, m in zip(scripts, o2):
-            r, o, e = vlib.run_lines(impl, [s], timeout=20)
-            if r != 0 or len(o) != 1:
-                bad.append((s, 'CRASH rc=%d %s' % (r, e[-300:]), m, 'diff'))
-                break
-        return bad
     for s, a, b in zip(scripts, o1, o2):
+        if a == 'NOT-RUN':
+            continue
         v = cmp_lines(a, b)
         if v != 'same':
             bad.append((s, a, b, v))
